@@ -252,6 +252,9 @@ func build(t tcase) (*built, error) {
 	w := lg.NewWorld(e)
 	st := w.State
 	spec := &lg.TxSpec{Era: e, Fee: 400_000}
+	if e == lg.Shelley {
+		spec.TTL = lg.U64(1 << 40) // mandatory in Shelley; far in the future
+	}
 	total := uint64(0)
 	addUtxo := func(label string, o owner) (lg.Input, error) {
 		in := lg.In(fmt.Sprintf("c28-%s-%s", label, o.name), 0)
